@@ -4,6 +4,8 @@ import (
 	"net/http"
 	"net/url"
 
+	"github.com/gorilla/mux"
+	"github.com/inbucket/inbucket/v3/pkg/rest"
 	vrf "github.com/inbucket/inbucket/v3/pkg/zzvrf"
 )
 
@@ -32,6 +34,32 @@ type vrfDoer struct {
 	rawPath string
 	hasBody bool
 	calls   int
+	req     *http.Request
+}
+
+// vrfRouted says whether the server's router hands the request to a mailbox route with the given
+// name. Natively the real gorilla/mux router with the real route table (rest.SetupRoutes) is asked.
+// Under the engine (gorilla/mux is outside the encoding) the documented matching rule stands in:
+// the router matches the *decoded* path segment by segment and a route variable is one segment, so
+// /api/v1/mailbox/{name}[/{id}[/source]] has exactly 4, 5 or 6 segments after the leading slash.
+func vrfRouted(d *vrfDoer, name string, extra int) bool {
+	if !vrf.Symbolic() {
+		r := mux.NewRouter()
+		rest.SetupRoutes(r.PathPrefix("/api/").Subrouter())
+		var m mux.RouteMatch
+		return r.Match(d.req, &m) && m.Vars["name"] == name
+	}
+	seg, cur := []string{}, ""
+	for i := 1; i < len(d.path); i++ {
+		if d.path[i] == '/' {
+			seg = append(seg, cur)
+			cur = ""
+		} else {
+			cur += string(d.path[i])
+		}
+	}
+	seg = append(seg, cur)
+	return len(seg) == 4+extra && seg[0] == "api" && seg[1] == "v1" && seg[2] == "mailbox" && seg[3] == name
 }
 
 func (d *vrfDoer) Do(req *http.Request) (*http.Response, error) {
@@ -40,6 +68,7 @@ func (d *vrfDoer) Do(req *http.Request) (*http.Response, error) {
 	d.path = req.URL.Path
 	d.rawPath = req.URL.EscapedPath()
 	d.hasBody = req.Body != nil && req.Body != http.NoBody
+	d.req = req
 	return &http.Response{StatusCode: 200, Status: "200 OK", Body: http.NoBody}, nil
 }
 
@@ -79,6 +108,14 @@ func VerifC14Client(op int) {
 	vrf.Assert("one-request", d.calls == 1)
 	vrf.Assert("method", d.method == wantMethod)
 	vrf.Assert("decoded-path", d.path == "/api/v1/mailbox/"+name+wantSuffix)
+	extra := 0
+	if wantSuffix == "/7" {
+		extra = 1
+	} else if wantSuffix == "/7/source" {
+		extra = 2
+	}
+	vrf.Known("C14-slash-in-mailbox-name-not-routable", name == "we/ird")
+	vrf.Assert("server-routes-the-request-to-the-mailbox", vrfRouted(d, name, extra))
 	if needBody {
 		vrf.Assert("mark-seen-sends-a-body", d.hasBody)
 	}
